@@ -192,8 +192,9 @@ def _assign_pairs(target, value) -> Iterator[tuple[str, Any]]:
 class Program:
     """All modules of flow.record under <root>, with an optional in-memory overlay {relpath: source}."""
 
-    def __init__(self, root: str, overlay: Optional[dict[str, str]] = None):
+    def __init__(self, root: str, overlay: Optional[dict[str, str]] = None, inline: bool = True):
         self.root = os.path.abspath(root)
+        self.inlined_calls: list[str] = []
         self.modules: dict[str, Module] = {}
         self.by_relpath: dict[str, Module] = {}
         overlay = overlay or {}
@@ -221,6 +222,15 @@ class Program:
                 self.by_relpath[rel] = m
         self._class_index: Optional[dict] = None
         self._subclasses: Optional[dict] = None
+        if inline:
+            from .inline import Inliner
+
+            inl = Inliner(self).run()
+            self.inlined_calls = inl.inlined_calls
+            for m in self.modules.values():
+                m._symbols = None
+            self._class_index = None
+            self._subclasses = None
 
     # -- lookup by qualified name -------------------------------------------------
     def module(self, modname: str) -> Module:
